@@ -237,9 +237,35 @@ _MODULE = None
 _ARGS = None
 
 
+_COV = [None, 0.0]
+
+
+def _cov_start():
+    """VERIF_COVERAGE=<dir>: record which library lines the exploration executes (tools/coverage_report.py
+    lists the never-executed lines of the files a property is anchored in - blind spots of an alphabet)"""
+    d = os.environ.get('VERIF_COVERAGE')
+    if not d or _COV[0] is not None:
+        return
+    import coverage
+    os.makedirs(d, exist_ok=True)
+    os.environ.setdefault('COVERAGE_CORE', 'sysmon')
+    cov = coverage.Coverage(data_file=os.path.join(d, 'cov'), data_suffix=True,
+                            include=[os.path.join(REPO, 'src', 'rsatoolbox', '*')])
+    cov.start()
+    _COV[0] = cov
+
+
+def _cov_save(force=False):
+    cov = _COV[0]
+    if cov is not None and (force or time.time() - _COV[1] > 3):
+        cov.save()
+        _COV[1] = time.time()
+
+
 def _worker_init(modname, tier, seed):
     global _MODULE, _ARGS
     _ARGS = (tier, seed)
+    _cov_start()
     _MODULE = importlib.import_module(modname)
 
 
@@ -260,6 +286,7 @@ def _worker(job):
                  '%s [%s %s]\n%s' % (e, origin, where, traceback.format_exc()[-3000:]))
     r = ctx.result()
     r['wall'] = time.time() - t0
+    _cov_save(force=idx >= int(os.environ.get('VERIF_NJOBS', '0')) - 48)
     return idx, r
 
 
@@ -301,6 +328,7 @@ def main(argv):
     if args.only:
         shards = [s for s in shards if args.only in json.dumps(jsonable(s))]
     jobs = list(enumerate(shards))
+    os.environ['VERIF_NJOBS'] = str(len(jobs))
     nproc = args.jobs or min(16, os.cpu_count() or 1, max(1, len(jobs)))
     soft_deadline = float(os.environ.get(
         'VERIF_DEADLINE', getattr(module, 'DEADLINE', {}).get(args.tier, 0) or
